@@ -375,6 +375,25 @@ class Spec:
                            [unwrap(x) for x in (kcals_daily, fat_daily, protein_daily, include_fat, include_protein, population)])
         return V(conv)
 
+    def total(self, series):
+        """Sum of a series (the same normalised prefix-sum terms the engine uses for .sum())."""
+        a = unwrap(series)
+        if isinstance(a, (list, tuple)):
+            a = Arr(len(a), elems=list(a), dtype="float", is_nd=False)
+        if a.concrete_len():
+            acc = Fraction(0)
+            for k in range(a.length):
+                acc = ops.scalar_binop("+", acc, a.get(k))
+            return V(acc)
+        from .npmodel import sym_sum
+
+        return V(sym_sum(self.ctx, a))
+
+    def fresh_series(self, base, n, dtype="float", nd=True):
+        """A havoc'd series (for callee summaries): fresh uninterpreted contents."""
+        self.ctx.counter += 1
+        return self.series(f"{base}!{self.ctx.counter}", n, dtype, nd)
+
     # ---- assumptions
     def assume(self, f):
         t = formula_of(f)
